@@ -421,4 +421,3 @@ func TestMetadataLists(t *testing.T) {
 		}
 	})
 }
-
